@@ -374,7 +374,7 @@ def main(argv=None):
     rep.add_results("round trips on concrete int / str / tuple elements (plain enumeration, companion of the symbolic round trip)", res, sk, exhaustive=True)
     rep.extra["cvc5_crosscheck"] = [r.get("cvc5") for r in res if r.get("cvc5")]
     rep.extra["translator_validation_inputs"] = sum(r.get("translator_validation_inputs", 0) for r in res)
-    rep.functions = R.source_digest(SS.subseq_segment_dist, SS.subseq_complete, SS.mask_from_subseq, SS.subseq_from_mask)
+    rep.functions = R.safe_digest(lambda: R.source_digest(SS.subseq_segment_dist, SS.subseq_complete, SS.mask_from_subseq, SS.subseq_from_mask))
     rep.bounds = {"subseq_segment_dist": f"all (child, parent, edges) with child != 0 and both masks below 2^N for N in {Ns} "
                                          f"(one equivalence query per N; bit-vector width N+6, loop unrolled N times, unwinding assertion proven)",
                   "subseq_complete": "sequence length 0..40 as a symbolic bit-vector",
